@@ -264,7 +264,8 @@ theorem step_spec (cfg : List (Indexer Id Res L)) (bk : Nat) (hnd : (cfg.map (·
         unfold replaceAll
         rw [hfst, a1]
         exact b1
-      simp only [← houts, hrep]
+      rw [← houts, hrep]
+      simp only []
       refine ⟨_, rfl, ?_, ?_, ?_, ?_⟩
       · -- invariant
         intro i
@@ -273,7 +274,7 @@ theorem step_spec (cfg : List (Indexer Id Res L)) (bk : Nat) (hnd : (cfg.map (·
         · have := b2 i hm
           by_cases hs : (aget i (todo.map (fun c => (c.id, g c)))).isSome = true
           · simp only [loop2, hs, if_true] at this
-            cases this
+            rw [← Option.some.inj this]
             exact hinv1 i
           · simp only [loop2, hs] at this
             obtain ⟨ix', h, hinv, _⟩ := Index.discard_all_spec e.obj (ixs1 i) (hinv1 i)
@@ -288,7 +289,7 @@ theorem step_spec (cfg : List (Indexer Id Res L)) (bk : Nat) (hnd : (cfg.map (·
         by_cases hct : c ∈ todo
         · have hinvk : invoked s e c = true := ((htodo_mem c).1 hct).2
           simp only [loop2, hget_in c hct, Option.isSome_some, if_true] at hb
-          cases hb
+          rw [← Option.some.inj hb]
           have ha := a2 c.id (List.mem_map_of_mem hct)
           simp only [loop1, hget_in c hct] at ha
           obtain ⟨ix', h, _, hv⟩ := applyOutcome_spec e.obj (g c) (s.ixs c.id) (hi c.id)
@@ -321,12 +322,14 @@ theorem step_spec (cfg : List (Indexer Id Res L)) (bk : Nat) (hnd : (cfg.map (·
         simp only [upd_same]
         by_cases hct : c ∈ todo
         · have hinvk : invoked s e c = true := ((htodo_mem c).1 hct).2
-          simp [hget_in c hct, memOf, hd', hh, hinvk, hOf, hg]
+          rw [hget_in c hct]
+          simp [memOf, hd', hh, hinvk, hOf, hg]
         · have hninv : invoked s e c = false := by
             cases hiv : invoked s e c with
             | false => rfl
             | true => exact absurd ((htodo_mem c).2 ⟨hc, hiv⟩) hct
-          simp only [hget_out c hc hct, memOf, hd', hh, hninv, Bool.not_true, Bool.false_eq_true, if_false]
+          rw [hget_out c hc hct]
+          simp only [memOf, hd', hh, hninv, Bool.not_true, Bool.false_eq_true, if_false]
           by_cases hsel : c.selects e = true
           · have : (cfg.filter (fun c => c.selects e)).any (fun c' => decide (c'.id = c.id)) = true := by
               rw [List.any_eq_true]
